@@ -37,7 +37,9 @@ func ReadYamlString(s string) (JsonNode, error) {
 }
 
 func unmarshal(bytes []byte, fn func([]byte, interface{}) error) (JsonNode, error) {
-	if strings.TrimSpace(string(bytes)) == "" {
+	// Only blank text is the empty document. A YAML document may consist
+	// of a plain scalar made of other (non-ASCII) white space, which is a string.
+	if strings.Trim(string(bytes), " \t\r\n") == "" {
 		return voidNode{}, nil
 	}
 	var v interface{}
